@@ -17,14 +17,18 @@ from .sym import SV
 
 
 class World:
-    def __init__(self, I):
+    def __init__(self, I, can_fail=True):
+        """can_fail=False explores only the executions in which no ghost operation raises - sufficient (and sound) for contracts that constrain returning paths only"""
         self.I = I
         self.failures = 0
         self.in_generic_loop = 0
+        self.can_fail = can_fail
 
     def may_fail(self, what, kinds=('Exception', 'KeyError')):
         """fork: the operation raises (one path per kind of exception) / the operation succeeds"""
         I = self.I
+        if not self.can_fail:
+            return
         self.failures += 1
         if I.decide(I.fresh('fails', 'bool')):
             kind = kinds[0]
